@@ -40,7 +40,7 @@ def run(chk):
     chk.add("fragment_pairs", len(cases))
     # 3. include layouts (directive replaced in place by the named file's tokens, file and line labels): TheoInclude, small bound
     res = tlc("TheoInclude", "SPECIFICATION Spec\nINVARIANT DepthOK\nCHECK_DEADLOCK FALSE\n", chk.pid, "incl",
-              env={"INCFILES": 3, "INCITEMS": 3 if chk.thorough else 2, "INCCASES": "/dev/null", "INCKIND": "wellformed"}, timeout=1500, xmx="16g")
+              env={"INCFILES": 3, "INCITEMS": 3 if chk.thorough else 2, "INCCASES": "/dev/null", "INCKIND": "wellformed", "INCLIMIT": 1048576}, timeout=1500, xmx="16g")
     require_ok(res, "TheoInclude layouts")
     chk.tlc_stats(res)
     for v, th in ths.items():
